@@ -13,6 +13,7 @@
                      stays as it was (DESIGN section 5, K12).
    c06_obs           everything the correspondence compares after one history. *)
 From BP Require Import Base.Prelude Model.Types Model.Object Model.Eq Model.Encode Model.Canon.
+From BP Require Import Spec.C06Wire.
 
 Definition field_at (sc : schema) (o : obj) (i : nat) : option fdesc :=
   nth_error (cfields (get_class sc (ocls o))) i.
@@ -88,3 +89,41 @@ Definition c06_obs (sc : schema) (r : result obj) : cv :=
    optionally parse() of more bytes into the same object is added by the caller *)
 Definition apply_sets (sc : schema) (o : obj) (ops : list (list nat * nat * pv)) : result obj :=
   fold_left (fun r '(path, i, v) => do o' <- r; assign_path sc o' path i v) ops (Ok o).
+
+(* ---- the loop of Message.dump, one field at a time ---- *)
+Definition here (sc : schema) (cur : list (option nat)) (i : nat) (x : pv) (f : fdesc) : result (list byte) :=
+  match group_selects cur f i with
+  | Some false => Ok []
+  | sel =>
+      match x with
+      | PNone => Ok []
+      | PPlaceholder =>
+          match default_of sc f with
+          | PNone => Ok []
+          | d => emit_field (fun _ => Ok []) sc f sel d
+          end
+      | _ => emit_field (enc_obj sc) sc f sel x
+      end
+  end.
+
+Fixpoint body (sc : schema) (cur : list (option nat)) (i : nat) (raw : list pv) (fs : list fdesc)
+  : result (list byte) :=
+  match raw, fs with
+  | x :: raw', f :: fs' =>
+      do h <- here sc cur i x f; do rest <- body sc cur (S i) raw' fs'; Ok (h ++ rest)
+  | _, _ => Ok []
+  end.
+
+
+(* a raw attribute that holds a value (neither None nor the PLACEHOLDER sentinel), and not a list *)
+Definition is_value (x : pv) : Prop := x <> PNone /\ x <> PPlaceholder.
+Definition singular_value (x : pv) : Prop := forall l, x <> PList l.
+
+
+(* bytes(m) contains, as a contiguous segment, a contribution of field i that starts with the tag
+   (number of f, wire type of f's proto type) *)
+Definition emitted_in (sc : schema) (o : obj) (i : nat) (f : fdesc) : Prop :=
+  forall all, enc_obj sc o = Ok all ->
+  exists pre h post, all = pre ++ h ++ post /\ here sc (ocur o) i (raw_at o i) f = Ok h /\
+                     starts_with_tag (fnum f) (base_wire_type (fty f)) h.
+
